@@ -118,7 +118,7 @@ ValueShape(T, i) ==
 
 \* ---------------------------------------------------------------- content
 NoContent == [ok |-> FALSE, strict |-> FALSE, layout |-> "none", fields |-> NoFields, url |-> <<>>,
-              nknown |-> 0, nunknown |-> 0, shapes |-> <<>>]
+              nknown |-> 0, nunknown |-> 0, shapes |-> <<>>, ashape |-> [a \in AttrSet |-> "-"]]
 DecodeContent(T, root) ==
   LET c == T[root] IN
   IF Len(c.b) < 8 THEN NoContent
@@ -139,7 +139,8 @@ DecodeContent(T, root) ==
     IN IF \E j \in known : ~vals[j].ok THEN NoContent
        ELSE [ok |-> TRUE, strict |-> strict, layout |-> IF At("uri") # {} THEN "semichain" ELSE "onchain",
              fields |-> fields, url |-> <<>>, nknown |-> Cardinality(known), nunknown |-> n - Cardinality(known),
-             shapes |-> [j \in 1..n |-> IF Len(d.items[j].v.r) = 0 THEN "other" ELSE ValueShape(T, d.items[j].v.r[1])]]
+             shapes |-> [j \in 1..n |-> IF Len(d.items[j].v.r) = 0 THEN "other" ELSE ValueShape(T, d.items[j].v.r[1])],
+             ashape |-> [a \in AttrSet |-> IF At(a) = {} THEN "-" ELSE ValueShape(T, d.items[CHOOSE j \in At(a) : TRUE].v.r[1])]]
   ELSE NoContent
 
 HasExotic(T, root) == \E i \in Reach([T |-> T, roots |-> <<root>>]) : T[i].x # Ordinary
